@@ -35,7 +35,7 @@ def sinks(repo):
     return sorted(out, key=lambda f: (f.file, f.node["l"]))
 
 
-def enc_rule(repo, res, rule="ENC"):
+def enc_rule(repo, res, rule="ENC", tier="quick"):
     cands = [f for q, f in repo.fns.items() if f.name == ENCODER]
     if len(cands) != 1:
         res.undecided(rule, f"{rule}:{ENCODER}", f"{len(cands)} functions named {ENCODER}")
@@ -49,7 +49,7 @@ def enc_rule(repo, res, rule="ENC"):
     if (prefix, suffix) != ("", ""):
         res.undecided(rule, f"{rule}:{fn.qname}", f"encoder is expected to be a bare chain (the template supplies the quotes), found prefix={prefix!r} suffix={suffix!r}", fn.loc())
         return
-    ok, cex, stats = X.check(chain, '"', '"', "dot", identity=True)
+    ok, cex, stats = X.check(chain, '"', '"', "dot", identity=True, alphabet=X.THOROUGH_ALPHABET if tier == "thorough" else None)
     desc = " -> ".join(f"{a!r}=>{b!r}" for a, b in chain)
     if ok:
         res.ok(rule, f"{rule}:{fn.qname}", f"for all strings: Graphviz reads \"{{{desc}}}\" back as the original text, the string closed exactly at its end ({stats['states']} product states, {stats['edges']} transitions)", fn.loc())
@@ -275,7 +275,7 @@ def balance_rule(repo, res, rule="BAL"):
 
 def run(repo, res, tier):
     ty = TY.Typer(repo, RE.ROARING_DIMS)
-    enc_rule(repo, res)
+    enc_rule(repo, res, tier=tier)
     sink_rule(repo, res, ty)
     nodeid_rule(repo, res, ty)
     arms_rule(repo, res)
